@@ -191,7 +191,7 @@ CLAIMED["C02"] = dict(
    text="Theorems (coq/props/C02.v): C02_restart -- from ANY state satisfying the refinement invariant, for EVERY subset of index files "
         "removed between shutdown and start-up (tree dump, any set of per-chunk per-split hint files, merged hint), bucket.close followed by "
         "bucket.open is not refused, re-establishes the invariant, and the reference map after it is a VIEW of the one before: every live key keeps "
-        "value, flags and version, a deleted key stays deleted (tombstone remembered or forgotten), an absent key stays absent. C02_history -- for "
+        "value, flags and version, a deleted key stays deleted (tombstone remembered or forgotten), an absent key stays absent. C02_history / C02_history_with_gc -- for "
         "ALL configurations with check_vhash off, ALL collision-free key sets and ALL histories of any length mixing set / delete / incr / get / "
         "meta-get / flush / hint dump with restarts at ANY positions (each with its own arbitrary subset of removed index files), every reply "
         "equals the reference map's reply. Proof (about 2000 lines): update-log theory (the tree = last update per hash of the record log), an "
